@@ -165,6 +165,8 @@ type spec struct {
 	hdr         http.Header // snapshot at commit
 	trailerKeys []string
 	body        []byte
+	connErr     bool // a write returned the injected conn error
+	asked       int // bytes the handler ASKED to write (every Write/WriteString/ReadFrom, whatever it returned)
 	explicitCL  int // -1 = none
 	feats       map[string]bool
 	insane      []string // reasons why the program is outside Sane
@@ -435,6 +437,15 @@ func run(cfg caseCfg, ops []op, tr *track.Tracker, lg *nullLogger) *runOut {
 					} else {
 						n, err = res.WriteString(string(data))
 					}
+					sp.asked += len(data)
+					if errors.Is(err, track.ErrInjected) {
+						sp.connErr = true // the bytes of a write that died on the conn may or may not count: no verdict afterwards
+					}
+					if errors.Is(err, http.ErrContentLength) && !sp.connErr && sp.explicitCL >= 0 && len(sp.body)+len(data) <= sp.explicitCL {
+						// the handler stayed within its declaration: refusing the write is wrong whatever else is true
+						out.wnErr = append(out.wnErr, fmt.Sprintf("%s of %d bytes refused with ErrContentLength although %d accepted + %d <= Content-Length %d",
+							o.kind, len(data), len(sp.body), len(data), sp.explicitCL))
+					}
 					if err == nil {
 						sp.body = append(sp.body, data...)
 						if n != len(data) {
@@ -474,6 +485,10 @@ func run(cfg caseCfg, ops []op, tr *track.Tracker, lg *nullLogger) *runOut {
 						}
 					}
 					n, err := res.ReadFrom(rd)
+					sp.asked += o.n
+					if errors.Is(err, track.ErrInjected) {
+						sp.connErr = true
+					}
 					if f != nil {
 						f.Close()
 						os.Remove(f.Name())
@@ -877,7 +892,9 @@ func execResp(e *lp.Exec, cline string, lines []string, tr *track.Tracker, lg *n
 		sp.feats["flush-identity-nocl"] = true
 	}
 	sp.insaneIf(bodiless(sp.status) && len(sp.body) > 0, "body-on-bodiless-status")
-	sp.insaneIf(sp.explicitCL >= 0 && len(sp.body) != sp.explicitCL && !bodiless(sp.status), "content-length-mismatch")
+	// judged on what the handler ASKED to write: a write the implementation refused or lost does not make the
+	// handler wrong (a body shorter than a correctly declared Content-Length is then the decoder's finding)
+	sp.insaneIf(sp.explicitCL >= 0 && sp.asked != sp.explicitCL && !bodiless(sp.status), "content-length-mismatch")
 	sane := len(sp.insane) == 0
 	if sane {
 		e.Count("cases", "sane")
